@@ -51,7 +51,7 @@ class Eval:
     def pred_fn(self, f, ch, depth=0):
         """value of the character predicate `f` (closure, or path to a local fn(char) -> bool / a char method) for ch"""
         f = hir.strip_ref(hir.strip(f))
-        if depth > 6:
+        if depth > 24:
             return None
         if f.get("k") == "Closure" and len(f.get("params") or []) == 1:
             ids = [bd["id"] for bd in hir.pat_bindings(f["params"][0])]
@@ -102,7 +102,7 @@ class Eval:
         """three-valued value of the boolean expression e, `ids` = locals that hold the character"""
         e = hir.strip(e)
         k = e.get("k")
-        if depth > 12:
+        if depth > 32:
             return None
         if k == "Lit":
             v = e["lit"].get("v")
@@ -176,7 +176,7 @@ class Eval:
         """does the nom parser expression p succeed on an input whose next character is ch (None = end of input)?
         Only parsers that decide on the next character are understood."""
         p = hir.strip_ref(hir.strip(p))
-        if depth > 10:
+        if depth > 16:
             return None
         k = p.get("k")
         if k == "Path":
